@@ -487,7 +487,14 @@ def _hist_queries(H, obj, n, kind):
     out = []
     if kind in ("Segment", "Geodesic"):
         if n == 2:
-            out += [("circle_parameters-%s" % m, (lambda m=m: obj.circle_parameters(degrees=False, model=m))) for m in MODELS]
+            # degrees first, then radians, then degrees again on the same object: the unit conversion must not
+            # leak from one answer into the next (or into arrays already handed to the caller)
+            # (consecutively for one model, then the other; and once more interleaved)
+            for m in MODELS:
+                out += [("circle_parameters-deg-%s" % m, (lambda m=m: obj.circle_parameters(degrees=True, model=m))),
+                        ("circle_parameters-%s" % m, (lambda m=m: obj.circle_parameters(degrees=False, model=m))),
+                        ("circle_parameters-deg2-%s" % m, (lambda m=m: obj.circle_parameters(degrees=True, model=m)))]
+            out += [("circle_parameters-again-%s" % m, (lambda m=m: obj.circle_parameters(degrees=False, model=m))) for m in MODELS]
         out += [("sphere_parameters-%s" % m, (lambda m=m: obj.sphere_parameters(model=m))) for m in MODELS]
         out += [("ideal_endpoint_coords-%s" % m, (lambda m=m: obj.ideal_basis_coords(m))) for m in ("klein", "poincare", "projective")]
     elif kind == "Horosphere":
@@ -524,13 +531,55 @@ def case_history(case):
     if type(obj) is not Cls:
         return {"v": [_V("history/type/%s" % kind, "after %r the object is a %s" % (ops, type(obj).__name__))], "t": t}
     fresh = Cls(np.array(obj.proj_data))
+    handed = []
     for (nm, f), (_, g) in zip(_hist_queries(H, obj, n, kind), _hist_queries(H, fresh, n, kind)):
-        got, want = diffhist.flatten_result(f()), diffhist.flatten_result(g())
+        r_obj, r_fresh = f(), g()
+        got, want = diffhist.flatten_result(r_obj), diffhist.flatten_result(r_fresh)
+        handed.append((nm, got, [(k, np.array(a, copy=True)) for k, a in got]))
         t += 2
+        if nm.startswith("circle_parameters") and not v:
+            # the angle pair itself (dropped by the generic comparison because of its noise class) must at least be
+            # in the unit asked for: degrees = radians * 180/pi for the same object, compared modulo a full turn
+            th_o, th_f = np.asarray(r_obj[2], dtype=float), np.asarray(r_fresh[2], dtype=float)
+            full = 360.0 if "deg" in nm else 2 * np.pi
+            dlt = np.abs((th_o - th_f + full / 2) % full - full / 2)
+            rr = np.asarray(r_fresh[1], dtype=float)
+            ok = np.isfinite(rr) & (rr < 50.0)
+            if np.any(ok) and not np.all(dlt[ok] <= 1e-4 * full):
+                v.append(_V("history/%s/angle-units/after-%s" % (kind, ops[-1] if ops else "construct"),
+                            "H^%d %s after %r: %s angles %r, fresh object %r" % (n, kind, ops, nm, th_o.tolist(), th_f.tolist())))
+                break
         if not diffhist.same_result(got, want, nm):
             v.append(_V("history/%s/%s/after-%s" % (kind, nm.split("-")[0], ops[-1] if ops else "construct"),
                         "H^%d %s after %r: %s differs from the same query on a fresh object with the same data:\n%r\nfresh\n%r" % (n, kind, ops, nm, got, want)))
             break
+    if not v and n == 2 and kind in ("Segment", "Geodesic"):
+        # degrees, radians and degrees again on the SAME object: one geometry, two units
+        byname = {nm: got for nm, got, _ in handed}
+        for m in MODELS:
+            try:
+                deg = np.asarray(byname["circle_parameters-deg-%s" % m][2][1], dtype=float)
+                rad = np.asarray(byname["circle_parameters-%s" % m][2][1], dtype=float)
+                deg2 = np.asarray(byname["circle_parameters-deg2-%s" % m][2][1], dtype=float)
+                rr = np.asarray(byname["circle_parameters-%s" % m][1][1], dtype=float)
+            except (KeyError, IndexError):
+                continue
+            ok = np.isfinite(rr) & (rr < 50.0)
+            d1 = np.abs((deg - rad * 180.0 / np.pi + 180.0) % 360.0 - 180.0)
+            d2 = np.abs((deg2 - deg + 180.0) % 360.0 - 180.0)
+            if np.any(ok) and not (np.all(d1[ok] <= 1e-6) and np.all(d2[ok] <= 1e-6)):
+                v.append(_V("history/%s/degrees-vs-radians/%s" % (kind, m),
+                            "H^%d %s after %r: circle_parameters angles in degrees %r, in radians %r, in degrees again %r" % (
+                                n, kind, ops, deg.tolist(), rad.tolist(), deg2.tolist())))
+                break
+    if not v:
+        for nm, arrs, snaps in handed:
+            for (k, a), (_, b) in zip(arrs, snaps):
+                if a.shape != b.shape or not np.array_equal(a, b, equal_nan=True):
+                    v.append(_V("history/%s/returned-array-rewritten" % kind, "H^%d %s after %r: the array returned by %s was changed by a later query" % (n, kind, ops, nm)))
+                    break
+            if v:
+                break
     return {"v": v, "t": t, "o": "%s|%d|%s|%d" % (kind, n, "-".join(ops), len(v)), "nt": len(ops) > 0}
 
 
